@@ -48,7 +48,7 @@ def source_writes(ev, src):
     return bad
 
 
-def one_case(ctx, rng, sb, nfaults):
+def one_case(ctx, rng, sb, nfaults, force_late=False):
     nitems = rng.choice([1, 1, 2])
     items = []
     for i in range(nitems):
@@ -95,17 +95,30 @@ def one_case(ctx, rng, sb, nfaults):
             if n["kind"] in ("file", "dir", "sym") and "rawname" not in n:
                 sites.append((i, p, n))
     chosen = rng.sample(sites, min(nfaults, len(sites))) if sites else []
+    if force_late:
+        # targeted: one read error, in the archiving pass of a non-empty file (not the last node, if there is a choice)
+        fsites = [s_ for s_ in sites if s_[2]["kind"] == "file" and len(s_[2]["data"]) > 0]
+        if not fsites:
+            return False
+        chosen = [rng.choice(fsites[:-1] or fsites)]
     # inject in walk order: locating a later site in a trace that already has the earlier injections keeps every ordinal exact
     chosen.sort(key=lambda s_: sites.index(s_))
     inject = []
     for (i, p, n) in chosen:
-        fault = rng.choice(["vanish", "denied", "typechange", "readerr"])
+        fault = "readerr" if force_late else rng.choice(["vanish", "denied", "typechange", "readerr"])
         if n["kind"] == "file" and fault == "readerr" and len(n["data"]) == 0:
             fault = "denied"
         path = os.path.join(case.roots[i], *[walkrun.name_of(x) for x in p])
         case.reset_storage()
         rc0, out0, ev0 = traced(case, inject or None)
-        inj = case.find_injection(ev0, path, n["kind"], fault)
+        # a read error of a file strikes either in the hashing pass (first read) or - every other time - while the file's bytes are being archived
+        late = fault == "readerr" and n["kind"] == "file" and (force_late or rng.random() < 0.5)
+        inj = case.find_injection(ev0, path, n["kind"], fault, late=late, size=len(n["data"])) if late else None
+        if inj is None:
+            late = False
+            inj = case.find_injection(ev0, path, n["kind"], fault)
+        if late:
+            ctx.count("fault.readerr.file.while-archiving")
         if inj is None:
             continue            # not reached (pruned by an earlier fault): the model agrees that nothing happens there
         if any(x.startswith(inj[0] + ":") for x in inject):
@@ -205,6 +218,27 @@ def one_case(ctx, rng, sb, nfaults):
                 if real not in got:
                     problem = "a backup was published (exit %d) but it lacks %r, with which nothing was wrong" % (rc, real)
                     break
+    if not problem and published:
+        # "... or, when the error strikes while a file's bytes are being archived, publishes nothing": whatever is published is a whole backup - its
+        # archive and manifest decode, and every record marked unique has its entry with the recorded size and hash
+        rarch = b.get("archive", {})
+        ents = rarch.get("entries")
+        lines = runs.parse_manifest(b)
+        if ents is None or "error" in rarch or any("error" in e for e in ents):
+            problem = "a backup was published (exit %d) whose data archive does not decode to the end (%s)" % (
+                rc, rarch.get("error") or next((e["error"] for e in (ents or []) if "error" in e), "no entries"))
+        elif lines is None:
+            problem = "a backup was published (exit %d) whose manifest does not decode" % rc
+        else:
+            byp = {bytes.fromhex(e["path_hex"]): e for e in ents if e.get("type") == "file"}
+            for l in lines:
+                if not l["unique"]:
+                    continue
+                e = byp.get(bytes(l["path"]).lstrip(b"/"))
+                if e is None or e["size"] != l["size"] or e["sha512"] != l["hash"]:
+                    problem = "a backup was published (exit %d) whose record of %r (unique, %d bytes) has %s" % (
+                        rc, bytes(l["path"]), l["size"], "no archive entry" if e is None else "an archive entry of %d bytes with another hash" % e["size"])
+                    break
     if not problem and rc != 0 and not errs:
         problem = "non-zero exit without any error-level report"
     if problem:
@@ -256,12 +290,20 @@ def run(ctx):
     ctx.rule = ("%d generated cases: 1..2 items (8%% missing), trees of files (0..5000 bytes), directories, symlinks, fifos below the top level, "
                 "30%% with a name that is not UTF-8 or holds CR / LF; 0, 1 or 2 faults per case at random paths - stat ENOENT (vanished), open / "
                 "readlink EACCES (denied), open ELOOP / ENOTDIR / readlink EINVAL (type changed), read / getdents / readlink EIO - injected with "
-                "strace at the call located in a reference trace. Non-trivial: every case; distinct by (trees, faults)." % n)
+                "strace at the call located in a reference trace; read errors of files strike in the hashing pass or in the archiving pass (targeted cases: always the latter). Non-trivial: every case; distinct by (trees, faults)." % n)
     for k in range(n):
         with slevel.Sandbox("c08") as sb:
             one_case(ctx, rng, sb, rng.choice([0, 1, 1, 1, 2, 2]))
         if len(ctx.violations) >= 3:
             break
+    # targeted: the read error strikes while a file's bytes are being archived (second pass over the file) - nothing may be published
+    done = 0
+    for k in range(60 if thorough else 12):
+        if ctx.has_failing_input() or done >= (20 if thorough else 4):
+            break
+        with slevel.Sandbox("c08") as sb:
+            if one_case(ctx, rng, sb, 1, force_late=True) is not False:
+                done += 1
     ctx.assumptions += ["strace injection makes exactly the located call fail with the chosen errno",
                         "we run as root: permission errors are injected, not produced with chmod"]
 
